@@ -111,12 +111,14 @@ def correspondence(ctx, gen_ok):
         split_cases.append((f'(inr ({cnat(0)}, {cmat_nat(h.t)}))', f'({cmat_nat(h.to_meshtet().t)}, [])',
                             ('hex_to_meshtet', None, h.t.shape[1])))
         tr = rand_mesh1('MeshTri1', rng, size=[2, int(rng.integers(2, 4))], integer=True, holes=False)
-        nl = int(rng.integers(2, 5))
         if k % 2:                                        # unused trailing points: the layers are shifted by p.shape[1]
             from dataclasses import replace as _rep
             tr = _rep(tr, doflocs=np.hstack((tr.p, 70.0 + rng.integers(0, 9, size=(2, int(rng.integers(1, 3)))))))
-        w = tr * skfem.MeshLine1(np.array([np.arange(nl, dtype=float)]))
-        ext_cases.append((f'({cnat(tr.p.shape[1])}, {cnat(nl)}, {cmat_nat(tr.t)})', cmat_nat(w.t), ('extrude', nl, tr.t.shape[1])))
+        line, lcells = O.rand_line(rng)
+        w = tr * line
+        lev, isc = line._intervals()
+        ext_cases.append((f'({cnat(tr.p.shape[1])}, {cnats(line.p[0].astype(int))}, {cnats(line.t[0])}, {cnats(line.t[1])}, {cmat_nat(tr.t)})',
+                          f'({cnats(lev.astype(int))}, {cbools(isc)}, {cmat_nat(w.t)})', ('extrude', len(lcells), tr.t.shape[1])))
         split_cases.append((f'(inr ({cnat(1)}, {cmat_nat(w.t)}))', f'({cmat_nat(w.to_meshtet().t)}, [])',
                             ('wedge_to_meshtet', None, w.t.shape[1])))
     # (e) join, remove_duplicate_nodes, facet carry-over of to_meshtri
@@ -219,7 +221,11 @@ Definition split (c : (nat * (nat * nat) * mat nat * list nat) + (nat * mat nat)
   end.
 Definition vmap (c : nat * mat nat * list nat) : list nat :=
   let '(M, edofs, el) := c in gen_restrict_vertex_map M (gen_restrict_ix 0 edofs el).
-Definition extr (c : nat * nat * mat nat) : mat nat := let '(nv, nl, t) := c in extrude_t nv nl t.
+Definition extr (c : nat * list nat * list nat * list nat * mat nat) : list nat * list bool * mat nat :=
+  let '(nv, pz, t0, t1, t) := c in
+  (gen_line_levels pz t0 t1, gen_line_iscell pz t0 t1, gen_extrude_t nv (gen_line_iscell pz t0 t1) t).
+Definition extr_eqb (a b : list nat * list bool * mat nat) : bool :=
+  nats_eqb (fst (fst a)) (fst (fst b)) && list_eqb Bool.eqb (snd (fst a)) (snd (fst b)) && natss_eqb (snd a) (snd b).
 Definition keys_eqb := list_eqb zs_eqb.
 Definition maybe_sort (srt : nat) (t : mat nat) : mat nat :=
   match srt with 0 => t | _ => sort_cols (length (nth 0 t [])) t end.
@@ -253,7 +259,7 @@ Definition carry (c : (nat * mat nat * mat nat * list nat) +
         lambda: ctx.corr('splits', imp, 'split', '(pair_eqb natss_eqb nats_eqb)', split_cases, defs=defs,
                          nontrivial=lambda r: r[2] >= 2),
         lambda: ctx.corr('restrict_vertex_map', imp, 'vmap', 'nats_eqb', vmap_cases, defs=defs, nontrivial=lambda r: r[2] >= 2),
-        lambda: ctx.corr('extrude', imp, 'extr', 'natss_eqb', ext_cases, defs=defs, nontrivial=lambda r: r[1] >= 3),
+        lambda: ctx.corr('extrude', imp, 'extr', 'extr_eqb', ext_cases, defs=defs, nontrivial=lambda r: r[1] >= 2),
         lambda: ctx.corr('join_and_dedupe', imp, 'joined', '(pair_eqb keys_eqb natss_eqb)', join_cases, defs=defs,
                          nontrivial=lambda r: r[2] < 2 * r[3] if r[0] == 'join' else r[2] < r[3]),
         lambda: ctx.corr('remove_duplicate_nodes_boundaries', imp, 'remapped',
@@ -353,6 +359,10 @@ def regressions(ctx, rng):
         run_op(ctx, O.op_second_order, b, rng)
         # + and @ with a left operand that has unused trailing points
         run_op(ctx, O.op_join_unused_left, O.tagged_mesh(['MeshTri1', 'MeshQuad1', 'MeshTet1', 'MeshHex1'][it % 4], rng, holes=False), rng)
+        # second-order + / remove_duplicate_nodes; products of line meshes
+        run_op(ctx, O.op_join_second_order, O.tagged_mesh(['MeshTri1', 'MeshQuad1', 'MeshTet1', 'MeshHex1'][it % 4], rng,
+                                                          holes=False, size=[2, 2] if it % 4 < 2 else [2, 2, 2]), rng)
+        run_op(ctx, O.op_line_product, O.tagged_mesh('MeshTri1', rng, holes=False), rng)
         # extrusion of a mesh with unused trailing points
         run_op(ctx, O.op_extrude_unused, O.tagged_mesh('MeshTri1', rng, holes=False), rng)
 
